@@ -99,6 +99,13 @@ pub fn counter_scope<F: FnOnce() -> Option<usize>>(op: &str, key: &str, peek: F)
     CounterScope(Some(guard))
 }
 
+/// Record one event (a JSON object) of the differential privacy compiler
+pub fn event<F: FnOnce() -> String>(make: F) {
+    if ENABLED.load(Ordering::SeqCst) {
+        emit(make());
+    }
+}
+
 /// Called at each step of `visitor::Iterator::next`, before the transition
 pub fn visit_step<A: Hash>(acceptor: &A, state: &'static str, stack_len: usize) {
     if !VISITS.load(Ordering::Relaxed) {
